@@ -196,8 +196,23 @@ func (b *siteBuilder) asset(siblings []string) string {
 	case 7: // an asset that redirects
 		u := b.name("r", "")
 		loc := ""
+		redirSibs := []string{}
+		for _, sib := range siblings {
+			if r := b.site[sib]; r != nil && r.Kind == "redirect" && r.FailFirst == 0 {
+				redirSibs = append(redirSibs, sib)
+			}
+		}
 		switch b.pick("assetloc", 6) {
-		case 0, 1, 2:
+		case 0, 1:
+			if len(redirSibs) > 0 {
+				// ... to the URL of another requisite of the same page that redirects itself (http -> https -> CDN): by the time
+				// the target node is created its namesake has been fetched and carries a pending target of its own
+				loc = redirSibs[b.pick("redirsib", len(redirSibs))]
+				b.feat["asset-redirect-to-redirecting-sibling"] = true
+			} else {
+				loc = b.leaf()
+			}
+		case 2:
 			loc = b.leaf()
 		case 3: // a Location that cannot become a request: only this target may be dropped, not its siblings
 			loc = []string{"intent://open/#Intent;scheme=app;end", "ftp://ftp.example.com/f.png", "http://localhost/x.png", "mailto:a@example.com", "javascript:void(0)"}[b.pick("badassetloc", 5)]
@@ -269,6 +284,13 @@ func (b *siteBuilder) page() string {
 	}
 	r.Assets = append(r.Assets, b.extra...)
 	b.extra = nil
+	if b.pick("reversed", 3) == 0 {
+		// document order is independent of the order in which the generator made the resources up: a requisite that
+		// redirects to a sibling's URL may come before or after that sibling
+		for i, j := 0, len(r.Assets)-1; i < j; i, j = i+1, j-1 {
+			r.Assets[i], r.Assets[j] = r.Assets[j], r.Assets[i]
+		}
+	}
 	if b.pick("selfref", 5) == 0 {
 		// the page names itself among its requisites (<link rel="canonical">, og:image of a media page): not an embedded
 		// resource; whatever follows it in the document is one like any other - here an API document that lists further
